@@ -3,9 +3,6 @@ package main
 
 import (
 	"fmt"
-	"os"
-	"strconv"
-	"strings"
 	"time"
 
 	"github.com/emitter-io/emitter/internal/network/mqtt"
@@ -13,32 +10,33 @@ import (
 )
 
 func main() {
-	n, _ := strconv.Atoi(os.Args[1])
-	b, err := bk.New(bk.Opts{Mode: os.Args[2]})
+	b, err := bk.New(bk.Opts{NoCluster: true})
 	if err != nil {
 		panic(err)
 	}
 	key, _ := b.Key("#/", "rwslp", time.Unix(0, 0))
-	c1, c2 := b.Attach(), b.Attach()
+	c1 := b.Attach()
 	c1.Send(&mqtt.Connect{ClientID: []byte("c1")})
-	c2.Send(&mqtt.Connect{ClientID: []byte("c2")})
 	c1.Barrier(2 * time.Second)
-	c2.Barrier(2 * time.Second)
-	topic := key + "/" + strings.Repeat("+/", n)
-	t0 := time.Now()
-	c1.Send(&mqtt.Subscribe{MessageID: 1, Subscriptions: []mqtt.TopicQOSTuple{{Topic: []byte(topic)}}})
-	_, err = c1.Barrier(20 * time.Second)
-	fmt.Println("subscribe", n, "plus levels:", time.Since(t0), err)
-	t0 = time.Now()
-	c1.Send(&mqtt.Unsubscribe{MessageID: 2, Topics: []mqtt.TopicQOSTuple{{Topic: []byte(topic)}}})
-	go func() {
-		time.Sleep(100 * time.Millisecond)
-		t1 := time.Now()
-		c2.Send(&mqtt.Subscribe{MessageID: 1, Subscriptions: []mqtt.TopicQOSTuple{{Topic: []byte(key + "/a/")}}})
-		_, err := c2.Barrier(60 * time.Second)
-		fmt.Println("  other client's subscribe meanwhile:", time.Since(t1), err)
-	}()
-	_, err = c1.Barrier(60 * time.Second)
-	fmt.Println("unsubscribe:", time.Since(t0), err)
-	time.Sleep(200 * time.Millisecond)
+	c1.Send(&mqtt.Subscribe{MessageID: 1, Subscriptions: []mqtt.TopicQOSTuple{{Topic: []byte(key + "/a/")}}})
+	c1.Barrier(2 * time.Second)
+	c0 := b.Attach()
+	c0.Send(&mqtt.Connect{ClientID: []byte("c0")})
+	c0.Barrier(2 * time.Second)
+	c0.Send(&mqtt.Publish{Header: mqtt.Header{QOS: 1, Retain: true}, MessageID: 3, Topic: []byte(key + "/a/"), Payload: []byte("retained")})
+	ps0, err0 := c0.Barrier(5 * time.Second)
+	fmt.Println("retained publish: err =", err0, len(ps0))
+	c0.Send(&mqtt.Subscribe{MessageID: 4, Subscriptions: []mqtt.TopicQOSTuple{{Topic: []byte(key + "/a/?last=5")}}})
+	ps0, err0 = c0.Barrier(5 * time.Second)
+	fmt.Println("subscribe with last=5 on a broker without cluster config: err =", err0)
+	for _, p := range ps0 {
+		fmt.Printf("  c0 <- %+v\n", bk.Abstract(p))
+	}
+	c1.Send(&mqtt.Publish{Header: mqtt.Header{QOS: 1}, MessageID: 8, Topic: []byte("emitter/presence/"), Payload: []byte(fmt.Sprintf(`{"key":%q,"channel":"a/","status":true}`, key))})
+	ps, err := c1.Barrier(5 * time.Second)
+	fmt.Println("presence status on a broker without cluster config: err =", err)
+	for _, p := range ps {
+		fmt.Printf("  c1 <- %+v\n", bk.Abstract(p))
+	}
+	fmt.Println("trie count after:", b.Svc.VerifTrie().Count())
 }
